@@ -4,7 +4,8 @@
    the mixture models are the generated Gen_MixtureModels.v.  [ref] ranges over the three reference
    phases and [ph] over the three phases, so every statement covers all nine pairs. *)
 From V Require Import Common.Num C07.Model C07.Gen_FreeEnergy C07.Gen_InitEnergies C07.Gen_MixtureModels C07.Gen_InitData
-     C07.InstR C07.ProofsPure C07.ProofsMix C07.Proofs C07.Gen_Rewire C07.Rewire C07.ProofsRewire.
+     C07.InstR C07.ProofsPure C07.ProofsMix C07.Proofs C07.Gen_Rewire C07.Rewire C07.ProofsRewire
+     C07.Gen_Packages C07.Packages C07.ProofsPackages.
 From Coq Require Import Reals List.
 From Coquelicot Require Import Coquelicot.
 Import ListNotations.
@@ -275,6 +276,19 @@ Print Assumptions C07_wiring_follows_own_inputs.
 Example C07_inv_satisfiable : forall (Cc Hc Sc : Type) (d0 : Cc) h k p sc hv addr, (addr < length h)%nat ->
   inv Cc Hc Sc d0 (h, fresh Cc Hc Sc d0 h k p sc hv addr :: nil).
 Proof. exact inv_fresh1. Qed.
+
+(* ---------------- property packages ---------------- *)
+
+(* The ideal mixture models pair flows with pure-component functors by position.  After ANY history of
+   Thermo(chemicals), subset (same chemicals re-ordered, strict subsets), extended and ideal, every package's
+   mixture holds at index i the functors of the i-th of ITS OWN chemicals -- so C07_mix_H_weighted_sum /
+   C07_mix_Cn_linear / C07_mix_entropy_partial, applied to the models of that package, speak about the package's
+   own chemicals in the package's own order.  Whether subset rebuilds the mixture is generated from _thermo.py
+   (Gen_Packages.v).  No axioms. *)
+Theorem C07_package_mixture_aligned : forall (ops : list pop) (p : pkg),
+  In p (prun nil ops) -> p_models p = p_chems p.
+Proof. exact packages_aligned. Qed.
+Print Assumptions C07_package_mixture_aligned.
 
 (* non-vacuity: the hypotheses are satisfiable *)
 Example C07_chem_ok_satisfiable : chem_ok (fun _ _ => 75) (fun _ => 40650) 298 101325 273 373.
